@@ -82,6 +82,8 @@ def run(ctx):
     from rules import C17 as c17
     c17.run(ctx.sub("R19.2o", "the gridded-cell orderer the exporter relies on satisfies the orderer rules of C17"), only=lambda f: f.id.startswith(("layout21tetris::library::", "layout21utils::")), floors=False, clients=lambda g: g.id.startswith("layout21tetris::conv::proto::"))
     ctx.rule("R19.3", "a malformed message (missing outline / location / reference, undefined cell, relative or external reference) reaches an error return: the importer contains no reachable panic")
+    from rules import convrules as cv
+    cv.run(ctx, "R19.7", ("layout21tetris::conv::proto::",), {"p": 10, "t": 3, "w": 5})
     for rid, table, side in (("R19.1e", EXPORT, "export"), ("R19.1i", IMPORT, "import")):
         n = 0
         for label, ins, out, rows in table:
